@@ -41,7 +41,7 @@ def run_canaries(mod, pid, tier, seed, nproc):
         jobs = can['jobs'](tier, seed)
         for j in jobs:
             j.setdefault('opts', {})
-            j['opts'] = dict(j['opts'], canary=can['name'])
+            j['opts'] = dict(getattr(mod, 'OPTS', {}), **dict(j['opts'], canary=can['name'], fail_fast=True, max_replays=2))
             j['pid'] = pid
         res = _pool_run(jobs, nproc)
         killed = any(r['violations'] for r in res)
@@ -123,6 +123,9 @@ def cmd_run(args):
         if args.verbose and i.get('detail'):
             print('   detail:', i['detail'])
 
+    if args.verbose or os.environ.get('VERIF_TIMES'):
+        for r in sorted(results, key=lambda r: -r['wall_s'])[:8]:
+            print('  slow job: %.1fs solver %.1fs paths %d  %s %s' % (r['wall_s'], r['solver_s'], r['paths'], r['harness'], json.dumps(r['params'], default=str)[:160]))
     wall = time.time() - t0
     ev = build_evidence(mod, pid, tier, seed, results, canaries, viol, known_hits, inconc, wall, nproc)
     os.makedirs(os.path.join(VERIF, 'evidence'), exist_ok=True)
